@@ -340,25 +340,35 @@ def time_of(res, tag):
 CURRENT_CASE = [None]      # (operator name, case seed) of the case being evaluated (for cross-run oracles)
 
 
-def make_case(name, case_seed, p_dispose=0.15):
+MODE = {"p_dispose": 0.15, "p_late": 0.08}     # default generation mode; a check may run another one (recorded per case)
+
+
+def make_case(name, case_seed, mode=None):
     """one seeded case: operator instance, timeline, dispose instant, horizon -- a function of
-    (name, case_seed) only, so that a replay file needs nothing else"""
+    (name, case_seed, mode) only, so that a replay file needs nothing else"""
     import random
+    mode = mode or MODE
     r = random.Random(case_seed)
     inst = table()[name](r)
     nsrc = inst["n_static"] + inst.get("dynamic", 0)
-    evs = gen_timeline(r, nsrc, inst.get("bounds", ()), inst.get("gaps", ()), inst.get("from_end", ()))
+    evs = gen_timeline(r, nsrc, inst.get("bounds", ()), inst.get("gaps", ()), inst.get("from_end", ()),
+                       p_none=mode.get("p_none", 0.12))
     disp = None
-    if r.random() < p_dispose and evs:
+    u = r.random()
+    if u < mode["p_dispose"] and evs:
         disp = r.choice(evs)[0] + r.choice([0, 0, 5])
+    elif u < mode["p_dispose"] + mode["p_late"]:
+        # LATE dispose: after every source event and every timer due by then (an operator that handed over to
+        # a fallback / later source which never terminates is still subscribed to it at that point)
+        disp = max([e[0] for e in evs] + [0]) + r.choice([5, 30, 100])
     horizon = None
     if inst.get("periodic"):
         horizon = max([e[0] for e in evs] + [0]) + 3 * inst["periodic"]
     return inst, evs, disp, horizon
 
 
-def run_case(name, case_seed):
-    inst, evs, disp, horizon = make_case(name, case_seed)
+def run_case(name, case_seed, mode=None):
+    inst, evs, disp, horizon = make_case(name, case_seed, mode)
     res = k2m.run_multi(inst["build"], inst["n_static"], evs, use_scheduler=True, dispose_at=disp, horizon=horizon)
     if res["build_error"] is not None:
         raise RuntimeError(f"{name}: build error {res['build_error']!r}")
@@ -367,7 +377,7 @@ def run_case(name, case_seed):
     return inst, evs, disp, res
 
 
-def run_timed(chk, pid, names, oracle, ncase=None, only=None):
+def run_timed(chk, pid, names, oracle, ncase=None, only=None, mode=None):
     """for each operator name: seeded instances x seeded timelines; K2
     correspondence with the machine (on the delivered input sequence) + the
     property oracle on the implementation's log."""
@@ -382,7 +392,7 @@ def run_timed(chk, pid, names, oracle, ncase=None, only=None):
         for ci in range(ncase):
             case_seed = chk.rng.getrandbits(48)
             CURRENT_CASE[0] = (name, case_seed)
-            inst, evs, disp, res = run_case(name, case_seed)
+            inst, evs, disp, res = run_case(name, case_seed, mode)
             if len({e[0] for e in evs}) < len(evs):
                 hist["same_instant_events"] += 1
             if any(e[2][0] == "N" and not e[2][1] for e in evs):
@@ -402,7 +412,7 @@ def run_timed(chk, pid, names, oracle, ncase=None, only=None):
             gt = k2m.g_trace(res, inst["enc"])
             sig = f"{name}|{inst['coq']}|{gi}"
             v = oracle(name, inst, res)
-            cases_to_replay = [[name, case_seed]]
+            cases_to_replay = [[name, case_seed] + ([mode] if mode else [])]
             if isinstance(v, tuple):                 # (message, [earlier cases the verdict depends on])
                 v, earlier = v
                 cases_to_replay = [list(c) for c in earlier] + cases_to_replay
@@ -514,9 +524,11 @@ def replay_cases(pid, oracle, path, reset=None):
     if reset:
         reset()
     verdict = None
-    for (name, case_seed) in rep["cases"]:
+    for entry in rep["cases"]:
+        name, case_seed = entry[0], entry[1]
+        mode = entry[2] if len(entry) > 2 else None
         CURRENT_CASE[0] = (name, case_seed)
-        inst, evs, disp, res = run_case(name, case_seed)
+        inst, evs, disp, res = run_case(name, case_seed, mode)
         print(f"case {name} seed={case_seed}: {inst['spec']!r}")
         print(f"  source events (time_ms, source, notification): {evs!r}   dispose_at={disp}")
         print(f"  delivered inputs: {res['inputs']!r}")
